@@ -4,12 +4,12 @@ import json
 LEVEL = {"category": "model_checking"}
 CHECKS = {
  "C01": ("TLC model-checks the SD machine (seed contract on all 2-variable networks, all query orders) and validates recorded runs of the six complete strategies: attractors recomputed by TLC from truth tables, bijection seeds<->attractors checked on every completion state; the executions of the repository's own attractor tests (published models projected onto their percolated core) are validated the same way.", "4/C01"),
- "C02": ("TLC enumerates the full hierarchy of percolated trap spaces from the truth tables and compares it (nodes, edges, motif lists, minimal nodes) with recorded full BFS/DFS runs on all 256 two-variable networks and random 3-6 variable networks; the SD model is checked exhaustively on the 2-variable networks; every public call the repository's own expansion tests make is recorded by a pytest plugin and validated by the same trace specification.", "4/C02"),
+ "C02": ("TLC enumerates the full hierarchy of percolated trap spaces from the truth tables and compares it (nodes, edges, motif lists, minimal nodes) with recorded full BFS/DFS runs (fresh, and after the first-level stubs were queried so that their Petri nets are cached) on all 256 two-variable networks and random 3-6 variable networks; the SD model is checked exhaustively on the 2-variable networks; every public call the repository's own expansion tests make is recorded by a pytest plugin and validated by the same trace specification.", "4/C02"),
  "C03": ("Model checking of every strategy after every prefix (depth 2, limits) on all 2-variable networks + TLC validation of recorded strategy runs after random prefixes: minimal nodes = inclusion-minimal trap spaces computed by TLC, after every call from the root that reports completion (limited or not).", "4/C03"),
  "C04": ("Exhaustive exploration of histories of plain expansion calls in the TLA+ model (invariant PartialFaithful in every micro-state); one history per abstract idle state is replayed in the library and every logged state is judged by TLC (exact successors and motifs of expanded nodes, none for stubs; structure / expansion order / return value predicted by the model are reported as mechanism diagnostics), then a full BFS must give the full diagram.", "4/C04"),
  "C05": ("Model checking of skip operations x seed queries in all orders on 2-variable networks + TLC validation of partial-expansion/skip/all-seeds runs including gadget compositions up to 8 variables.", "4/C05"),
  "C08": ("Recorded node_attractor_candidates calls under the option x configuration grid on every node kind; TLC checks Covers (every own attractor hit, full states inside the node) or error-with-nothing-cached; contract-level model checked on 2-variable networks. The pipeline itself is a TLA+ state machine (Cand.tla): Candidates.tla model-checks Covers / Error / Termination for every NFVS, retained assignment, solver truncation, flip order and simulation outcome, and CandTrace.tla replays the stage events recorded inside the real pipeline through the same step functions.", "4/C08"),
- "C12": ("TLC checks set i = attractor of seed i for every recorded node_attractor_sets result under all query orders, reclamation, pickling, and the symbolic fallback forced by a tiny candidate limit; twin runs (relation 'fallback') compare the default method and the forced fallback node by node on expanded, unexpanded and skip nodes.", "4/C12"),
+ "C12": ("TLC checks set i = attractor of seed i for every recorded node_attractor_sets result under all query orders (also after unminimised candidates on unexpanded nodes), reclamation, pickling, and the symbolic fallback forced by a tiny candidate limit; twin runs (relation 'fallback') compare the default method and the forced fallback node by node on expanded, unexpanded and skip nodes.", "4/C12"),
  "C14": ("Model checking of {queries} x {six ways of giving a node successors} x reclaim on all 2-variable networks (CacheFresh in every state); every abstract transition with cached data is replayed in the library and compared (CACHE clause) by TLC; the step clause CacheDiscard (action property in the model, per-event clause on traces) requires that a node that got successors in a call reports no candidate inside one of them.", "4/C14"),
  "C06": ("Every intervention that recorded succession_control calls (fresh and already expanded/skipped/shortcut diagrams) report successful is re-derived by TLC: nested trap spaces, LDOI containment, and attractors of the overridden network recomputed from truth tables (also under small max_motifs_per_node: refusal or the unrestricted answer). The derivation itself (Control.tla) is model-checked against the dynamics for every 2-variable network and the 3-variable catalogue x every target x strategy x bound x forbidden set (MC_Control: T_C06, T_Reach), with two design mutations that TLC must refute.", "4/C06"),
  "C07": ("On fresh diagrams TLC builds the complete expected answer of succession_control from the full succession diagram (paths x motif products, inclusion-minimal driver sets with all forcing valuations, bounds, forbidden sets, flags) and compares it with the recorded output as a set with multiplicities. The expected answer itself (Control.tla) is model-checked to be complete and minimal (MC_Control: T_Reach, T_Cover, T_Min, T_Internal) on all 2-variable and the 3-variable catalogue networks x all queries.", "4/C07"),
